@@ -91,7 +91,14 @@ def run(ctx, rep):
         for f in funcs:
             rep.analysed(f)
         if not tracked:
-            raise AnalysisError("%s: no tracking container found on the accept path" % c.name)
+            am = ctx.repo.method(c, "_accept_method")
+            forks = am is not None and bool(A.find_calls(am.node, "os.fork"))
+            rep.ob("R17.1", "%s: the accepted client is tracked on the accept path" % c.name, forks,
+                   "the parent hands the client to a child process and closes its own copy" if forks else
+                   "neither accept() nor %s._accept_method registers the accepted socket in a container that close() drains: "
+                   "closing the server from another thread does not end this client (no end-of-stream, no disconnect hook)" % c.name,
+                   am.loc if am is not None else ctx.loc(c.node), kind="site")
+            continue
         for fld, sites in sorted(tracked.items()):
             if fld in ("workers",):
                 continue
@@ -105,6 +112,25 @@ def run(ctx, rep):
                    ctx.loc(site))
 
     # ------------------------------------------------------------------ R17.2
+    for c in sorted(concrete, key=lambda x: x.name):
+        am = c.methods.get("_accept_method")
+        if am is None:
+            continue
+        ga = ctx.cfg(am, raises="default")
+        sp = A.params(am.node)[1]
+        closes_ = [n for n in ga.live if n.kind == "stmt" and n.ast is not None and A.find_calls(n.ast, "%s.close" % sp)]
+        untrack = {n.id for n in ga.live if n.kind == "stmt" and n.ast is not None and any(
+            isinstance(x.func, ast.Attribute) and x.func.attr in ("discard", "remove", "clear") and K.self_attr(x.func.value)
+            for x in A.calls(n.ast))}
+        for cn in closes_:
+            p1 = Q.find_path_ef([ga.entry], lambda x: x is cn, lambda a, b, l: b.id not in untrack)
+            p2 = Q.find_path_ef([cn], lambda x: x is ga.exit, lambda a, b, l: l != "exc" and b.id not in untrack)
+            ok = p1 is None or p2 is None
+            rep.ob("R17.2", "%s._accept_method: a client socket closed here is also removed from the tracking table" % c.name, ok,
+                   "discard on every path through the close" if ok else
+                   "`%s` rejects the client without untracking it (accept() has already added it): every rejected client leaves a "
+                   "closed socket in the table for the life of the server" % A.norm(cn.ast), ctx.loc(cn),
+                   witness=ctx.path((p1 or []) + (p2 or [])[1:]) if not ok else None)
     K.share(ctx, rep, "c16", lambda o: o.rule == "R16.4" and "shut down and untracked" in o.key, "R17.2", floor=1)
     K.share(ctx, rep, "c16", lambda o: o.rule == "R16.2" and "_drop_connection" in o.key, "R17.2", floor=1)
     K.share(ctx, rep, "c11", lambda o: o.rule == "R11.3" and ("serve_all" in o.key or "serve_threaded" in o.key), "R17.2", floor=2)
